@@ -25,6 +25,7 @@ pub static C01: Scenario = Scenario {
         "no fault dimension of its own: this is seeded input generation executed inside the simulator; the simulator contributes replayable builder-layer tokens (entropy and clock seams) and delivery inside the validity window",
         "batteries layer is judged only when nbf < now < exp at the verifier (C12 is silent at equality)",
     ],
+    exhaustive: &[],
 };
 
 pub static C02: Scenario = Scenario {
@@ -41,6 +42,7 @@ pub static C02: Scenario = Scenario {
         "key pool: Ed25519 and P-384 pairs derived from seeds in the harness, five committed RSA-2048 pairs",
         "v1.public signatures use ring's real RSA-PSS salt (not simulated): a v1.public token's bytes differ between executions, its verdict does not",
     ],
+    exhaustive: &[],
 };
 
 fn mark_nontrivial(mut j: oracle::Judgement, run: &Run) -> oracle::Judgement {
